@@ -55,7 +55,7 @@ class Session:
     (str without newline) given the session; `on_reply(i, line, reply_obj)` is
     called with every parsed reply (i = -1 for the initial message)."""
 
-    def __init__(self, kconfig_path, sdkconfig_path, rename=None, version=3, parser=1, policy=None, extra_env=None, pipes=None):
+    def __init__(self, kconfig_path, sdkconfig_path, rename=None, version=3, parser=1, policy=None, extra_env=None, pipes=None, verbosity="quiet"):
         # the standard streams are real text layers over in-memory byte pipes, configured like a deployment's:
         # (stdin errors, stdout encoding) - ("strict", "utf-8") is what a UTF-8 locale gives; ("surrogateescape", "utf-8") the
         # C/POSIX locale and PYTHONUTF8=1; other stdout encodings come from PYTHONIOENCODING / legacy locales / code pages
@@ -64,7 +64,7 @@ class Session:
         self.sdkconfig_path = sdkconfig_path
         self.rename = rename
         self.version = version
-        self.env = {"KCONFIG_PARSER_VERSION": parser, "KCONFIG_DEFAULTS_POLICY": policy, "KCONFIG_REPORT_VERBOSITY": "quiet",
+        self.env = {"KCONFIG_PARSER_VERSION": parser, "KCONFIG_DEFAULTS_POLICY": policy, "KCONFIG_REPORT_VERBOSITY": verbosity,
                     "IDF_TARGET": "esp32", "IDF_VERSION": "v9.9"}
         if extra_env:
             self.env.update(extra_env)
@@ -143,6 +143,14 @@ class Session:
 
         stdin = io.TextIOWrapper(io.BufferedReader(ClientRaw()), encoding="utf-8", errors=self.stdin_errors, newline=None)
 
+        from esp_pylib.logger import log as _log
+
+        # The package binds the note/hint/debug channel to the stderr object that exists when it is imported.  In a real
+        # server process that is the process's stderr; in this node it is `err`.  Only an existing binding is carried over:
+        # if the code under test never bound the channel, its output goes where the logger's default sends it (stdout).
+        old_info, old_verbosity = getattr(_log, "_info_stream", None), getattr(_log, "_verbosity", None)
+        if old_info is not None:
+            _log.set_info_stream(err)
         real_kl = ks.kconfiglib
         ks.kconfiglib = _KconfiglibProxy(real_kl, self.kconfigs)
         old = sys.stdin, sys.stdout, sys.stderr
@@ -167,6 +175,9 @@ class Session:
             os.chdir(cwd)
             sys.stdin, sys.stdout, sys.stderr = old
             ks.kconfiglib = real_kl
+            if old_info is not None:
+                _log.set_info_stream(old_info)
+            _log.set_verbosity(old_verbosity if old_verbosity is not None else "silent")
             self.stderr_text = err_bytes.getvalue().decode("utf-8", "replace")
             self.stdout_text = out_bytes.getvalue().decode(self.stdout_encoding, "replace")
             simproc.scrub_env()
